@@ -4,6 +4,8 @@
    Part 1  tables, the bookkeeping model [tally] and "the first min(count,m) samples"
    Part 2  the learner invariant through [observe] (upper bound, unknown pairs untouched,
            empirical Bellman residual of known pairs) and its consequences for [train]
+   Part 2b the optimistic empirical model (unknown pairs = self-loops paying rmax): its backup is a
+           gamma-contraction on Q tables, so a small residual means closeness to its optimal Q
    Part 3  soundness of the certificate checker [c17_check] evaluated on msdm's output *)
 From Coq Require Import Reals Lra Lia List Arith Bool.
 From MSDM Require Import base.Num base.NumInst base.NumR model.RMax.
@@ -85,6 +87,25 @@ Proof.
   intros Hi Hp. unfold countb.
   assert (Hin : In i (filter p (seq 0 n))) by (apply filter_In; split; [apply in_seq; lia|auto]).
   destruct (filter p (seq 0 n)); [contradiction|simpl; lia].
+Qed.
+
+
+(* a finite family of reals has a largest absolute value *)
+Lemma fsup n (f : nat -> R) :
+  exists D, 0 <= D /\ (forall i, (i < n)%nat -> Rabs (f i) <= D) /\
+            (D = 0 \/ exists i, (i < n)%nat /\ Rabs (f i) = D).
+Proof.
+  induction n.
+  - exists 0. split; [lra|]. split; [intros; lia|auto].
+  - destruct IHn as (D & HD0 & HDle & HDat).
+    destruct (Rle_dec (Rabs (f n)) D) as [Hle|Hgt].
+    + exists D. split; [auto|]. split.
+      * intros i Hi. destruct (Nat.eq_dec i n); [subst; auto|apply HDle; lia].
+      * destruct HDat as [|(i & Hi & He)]; [auto|right; exists i; split; [lia|auto]].
+    + exists (Rabs (f n)). split; [apply Rabs_pos|]. split.
+      * intros i Hi. destruct (Nat.eq_dec i n); [subst; lra|].
+        eapply Rle_trans; [apply HDle; lia|lra].
+      * right; exists n; split; [lia|reflexivity].
 Qed.
 
 (* ------------------------------------------------------------------------------------ *)
@@ -460,14 +481,18 @@ Record inv (L : learner R) : Prop := {
              Rabs (qf L s a - newqR L (l_q L) s a) < tol
 }.
 
-Lemma inv_init : inv initR.
+Lemma tinv_init : tinv initR.
 Proof.
-  constructor; [constructor|..].
+  constructor.
   - intros s a Hs Ha. rewrite init_cnt by auto. lia.
   - intros s a Hs Ha. rewrite init_cnt, init_rw by auto. simpl. lra.
   - intros s a Hs Ha. rewrite init_cnt by auto.
     rewrite (sumn_ext nS _ (fun _ => 0%nat)) by (intros; now apply init_tr).
     clear. induction nS; simpl; lia.
+Qed.
+Lemma inv_init : inv initR.
+Proof.
+  constructor; [apply tinv_init|..].
   - intros s a Hs Ha. rewrite init_q by auto. lra.
   - intros s a Hs Ha _. now apply init_q.
   - intros s a Hs Ha Hk. rewrite init_cnt in Hk by auto. lia.
@@ -625,6 +650,124 @@ Theorem rmax_bellman_known fuel exp L :
   forall s a, (s < nS)%nat -> (a < nA)%nat -> (m <= cntf L s a)%nat ->
   Rabs (qf L s a - newqR L (l_q L) s a) < tol.
 Proof. intros Hv H. apply (inv_bell L (train_inv fuel exp L Hv H)). Qed.
+
+
+(* ---------------------------------------------------------------------------------- *)
+(* Part 2b: the optimistic empirical model (unknown pairs = self-loops paying rmax) and   *)
+(* the distance of a table with small residual to its optimal Q                           *)
+(* ---------------------------------------------------------------------------------- *)
+Notation boptR := (@bopt R NumR nS nA m gamma rmax).
+
+Lemma tallies_tinv exp : Forall valid_step exp -> tinv (talliesR exp).
+Proof.
+  induction exp as [|e exp IH] using rev_ind; intros Hv.
+  - apply tinv_init.
+  - apply Forall_app in Hv as [Hv1 Hv2]. inversion Hv2; subst.
+    rewrite tallies_snoc. apply tinv_tally; auto.
+Qed.
+Lemma tinv_views L1 L2 :
+  (forall s a, (s < nS)%nat -> (a < nA)%nat ->
+     cntf L2 s a = cntf L1 s a /\ rwf L2 s a = rwf L1 s a /\
+     (forall ns, (ns < nS)%nat -> trf L2 s a ns = trf L1 s a ns)) ->
+  tinv L1 -> tinv L2.
+Proof.
+  intros Hv [H1 H2 H3]. constructor; intros s a Hs Ha; destruct (Hv s a Hs Ha) as (A & B & C).
+  - rewrite A; auto.
+  - rewrite A, B; auto.
+  - rewrite A, <- (H3 s a Hs Ha). apply sumn_ext. auto.
+Qed.
+
+Lemma vmax_nonexp q1 q2 s D :
+  (1 <= nA)%nat ->
+  (forall a, (a < nA)%nat -> Rabs (untab2 q1 s a - untab2 q2 s a) <= D) ->
+  Rabs (vmaxR q1 s - vmaxR q2 s) <= D.
+Proof using Type. clear Hm Hg0 Hg1.
+  intros H Hd. destruct (vmax_some q1 s H) as (m1 & E1 & ->). destruct (vmax_some q2 s H) as (m2 & E2 & ->).
+  apply (maxf_nonexp _ _ _ _ _ _ _ E1 E2). intros a Ha _. auto.
+Qed.
+
+Lemma bopt_contraction L q1 q2 D s a :
+  tinv L -> (s < nS)%nat -> (a < nA)%nat ->
+  (forall s' a', (s' < nS)%nat -> (a' < nA)%nat -> Rabs (untab2 q1 s' a' - untab2 q2 s' a') <= D) ->
+  Rabs (boptR L q1 s a - boptR L q2 s a) <= gamma * D.
+Proof.
+  intros Ht Hs Ha Hd. unfold bopt. destruct (knownR L s a) eqn:E.
+  - apply known_iff in E. rewrite !newq_val.
+    set (S1 := sumf nS (fun ns => thatR L s a ns * vmaxR q1 ns)).
+    set (S2 := sumf nS (fun ns => thatR L s a ns * vmaxR q2 ns)).
+    replace (@rhat R NumR L s a + gamma * S1 - (@rhat R NumR L s a + gamma * S2)) with (gamma * (S1 - S2)) by lra.
+    rewrite Rabs_mult, (Rabs_right gamma) by lra. apply Rmult_le_compat_l; [lra|].
+    eapply Rle_trans.
+    + apply wsum_diff_bound with (d := D).
+      * intros ns _. now apply that_nonneg.
+      * intros ns Hns. apply vmax_nonexp; [lia|]. intros a' Ha'. auto.
+    + rewrite that_sum by auto. lra.
+  - numR.
+    replace (rmax + gamma * vmaxR q1 s - (rmax + gamma * vmaxR q2 s))
+      with (gamma * (vmaxR q1 s - vmaxR q2 s)) by lra.
+    rewrite Rabs_mult, (Rabs_right gamma) by lra. apply Rmult_le_compat_l; [lra|].
+    apply vmax_nonexp; [lia|]. intros a' Ha'. auto.
+Qed.
+
+(* a table whose residual against the optimistic empirical backup is at most delta lies within
+   delta/(1-gamma) of any fixed point of that backup (hence of THE fixed point: take delta = 0) *)
+Theorem bopt_residual_bound L Qt Qs delta :
+  tinv L -> 0 <= delta ->
+  (forall s a, (s < nS)%nat -> (a < nA)%nat -> untab2 Qs s a = boptR L Qs s a) ->
+  (forall s a, (s < nS)%nat -> (a < nA)%nat -> Rabs (untab2 Qt s a - boptR L Qt s a) <= delta) ->
+  forall s a, (s < nS)%nat -> (a < nA)%nat ->
+  Rabs (untab2 Qt s a - untab2 Qs s a) <= delta / (1 - gamma).
+Proof.
+  intros Ht Hd0 Hfix Hres.
+  set (f := fun k => untab2 Qt (k / nA) (k mod nA) - untab2 Qs (k / nA) (k mod nA)).
+  destruct (fsup (nS * nA) f) as (D & HD0 & HDle & HDat).
+  assert (Hpair : forall s a, (s < nS)%nat -> (a < nA)%nat ->
+            Rabs (untab2 Qt s a - untab2 Qs s a) <= D).
+  { intros s a Hs Ha. specialize (HDle (a + s * nA)%nat).
+    unfold f in HDle. rewrite Nat.div_add, Nat.mod_add, Nat.div_small, Nat.mod_small in HDle by lia.
+    apply HDle. nia. }
+  assert (HD : D <= delta / (1 - gamma)).
+  { destruct HDat as [->|(k & Hk & He)].
+    - apply Rmult_le_pos; [lra|]. left. apply Rinv_0_lt_compat. lra.
+    - assert (HnA : (nA <> 0)%nat) by (intro; subst; lia).
+      assert (Hs : (k / nA < nS)%nat) by (apply Nat.div_lt_upper_bound; [auto|lia]).
+      assert (Ha : (k mod nA < nA)%nat) by (apply Nat.mod_upper_bound; auto).
+      unfold f in He.
+      pose proof (bopt_contraction L Qt Qs D _ _ Ht Hs Ha Hpair) as Hc.
+      pose proof (Hres _ _ Hs Ha) as Hr. pose proof (Hfix _ _ Hs Ha) as Hf.
+      assert (H1 : D <= delta + gamma * D).
+      { apply Rabs_le_inv' in Hc. apply Rabs_le_inv' in Hr.
+        rewrite <- He at 1. apply Rabs_le. lra. }
+      apply Rmult_le_reg_r with (1 - gamma); [lra|].
+      unfold Rdiv. rewrite Rmult_assoc, Rinv_l; lra. }
+  intros s a Hs Ha. eapply Rle_trans; [apply Hpair; auto|exact HD].
+Qed.
+
+(* unknown pairs of a learner state satisfying the invariant are exact fixed points of the backup *)
+Lemma inv_unknown_residual L s a :
+  inv L -> (s < nS)%nat -> (a < nA)%nat -> (cntf L s a < m)%nat ->
+  qf L s a = boptR L (l_q L) s a.
+Proof.
+  intros HI Hs Ha Hlt. unfold bopt. rewrite (proj2 (known_false L s a) Hlt). numR.
+  assert (Hv : vmaxR (l_q L) s = Q0).
+  { apply Rle_antisym.
+    - apply vmax_le; [lia|]. intros a' Ha'. apply (inv_upper L HI); auto.
+    - rewrite <- (inv_unk L HI s a Hs Ha Hlt). now apply vmax_ge. }
+  rewrite Hv, q0_fix. apply (inv_unk L HI); auto.
+Qed.
+
+Theorem rmax_near_empirical_optimum fuel exp L Qs :
+  Forall valid_step exp -> trainR fuel exp = Some L -> 0 <= tol ->
+  (forall s a, (s < nS)%nat -> (a < nA)%nat -> untab2 Qs s a = boptR L Qs s a) ->
+  forall s a, (s < nS)%nat -> (a < nA)%nat -> Rabs (qf L s a - untab2 Qs s a) <= tol / (1 - gamma).
+Proof.
+  intros Hv Ht Htol Hfix. pose proof (train_inv fuel exp L Hv Ht) as HI.
+  apply (bopt_residual_bound L (l_q L) Qs tol (inv_t L HI) Htol Hfix).
+  intros s a Hs Ha. destruct (Nat.lt_ge_cases (cntf L s a) m) as [Hlt|Hge].
+  - fold (qf L s a). rewrite <- (inv_unknown_residual L s a HI Hs Ha Hlt).
+    replace (qf L s a - qf L s a) with 0 by lra. rewrite Rabs_R0. exact Htol.
+  - unfold bopt. rewrite (proj2 (known_iff L s a) Hge). left. apply (inv_bell L HI); auto.
+Qed.
 
 (* ---- the returned policy (model side): uniform over the exact maximisers of the row ---- *)
 Notation is_maxR := (@is_max R NumR nA).
@@ -807,7 +950,70 @@ Proof using Type. clear Hm Hg0 Hg1.
     + intros _. exact H1.
 Qed.
 
+
+(* the tallies msdm's learner holds form a model: counts capped, mean reward <= rmax, stochastic rows *)
+Lemma cert_tinv :
+  @c_valid R NumR nS nA rmax P Rw ab ini eps = true ->
+  @c_tally R NumR nS nA m gamma rmax eps O = true -> tinv O.
+Proof.
+  intros Hv Ht. apply (tinv_views (talliesR expR) O).
+  - intros s a Hs Ha. destruct (cert_tally Ht s a Hs Ha) as (A & B & C).
+    destruct (tallies_spec expR s a Hs Ha) as (A' & B' & C').
+    rewrite A, A', B, B'. repeat split; auto. intros ns Hns. rewrite C, C'; auto.
+  - apply tallies_tinv. now apply cert_valid_steps.
+Qed.
+
+(* residual of the returned table against the OPTIMISTIC empirical model on every pair:
+   known pairs within btol, unknown pairs (exactly optimistic) within gamma*utol *)
+Theorem cert_bellman_all :
+  0 <= utol ->
+  @c_upper R NumR nS nA gamma rmax O utol = true ->
+  @c_unknown R NumR nS nA m gamma rmax O = true ->
+  @c_bellman R NumR nS nA m gamma O btol = true ->
+  forall s a, (s < nS)%nat -> (a < nA)%nat ->
+  Rabs (qf O s a - boptR O (l_q O) s a) <= Rmax btol (gamma * utol).
+Proof.
+  intros Hu0 Hu Hk Hb s a Hs Ha. unfold bopt.
+  destruct (Nat.lt_ge_cases (cntf O s a) m) as [Hlt|Hge].
+  - rewrite (proj2 (known_false O s a) Hlt). numR.
+    pose proof (cert_unknown Hk s a Hs Ha Hlt) as Hq. rewrite <- q0_val in Hq.
+    assert (Hlo : Q0 <= vmaxR (l_q O) s) by (rewrite <- Hq; now apply vmax_ge).
+    assert (Hhi : vmaxR (l_q O) s <= Q0 + utol).
+    { apply vmax_le; [lia|]. intros a' Ha'. rewrite q0_val. apply (cert_upper Hu); auto. }
+    pose proof q0_fix as Hfix.
+    assert (Hg : gamma * vmaxR (l_q O) s <= gamma * (Q0 + utol)) by (apply Rmult_le_compat_l; lra).
+    assert (Hg' : gamma * Q0 <= gamma * vmaxR (l_q O) s) by (apply Rmult_le_compat_l; lra).
+    eapply Rle_trans; [|apply Rmax_r]. rewrite Hq. apply Rabs_le. lra.
+  - rewrite (proj2 (known_iff O s a) Hge).
+    eapply Rle_trans; [|apply Rmax_l]. apply (cert_bellman Hb); auto.
+Qed.
+
+Theorem cert_near_empirical_optimum Qs :
+  0 <= utol -> 0 <= btol ->
+  @c_valid R NumR nS nA rmax P Rw ab ini eps = true ->
+  @c_tally R NumR nS nA m gamma rmax eps O = true ->
+  @c_upper R NumR nS nA gamma rmax O utol = true ->
+  @c_unknown R NumR nS nA m gamma rmax O = true ->
+  @c_bellman R NumR nS nA m gamma O btol = true ->
+  (forall s a, (s < nS)%nat -> (a < nA)%nat -> untab2 Qs s a = boptR O Qs s a) ->
+  forall s a, (s < nS)%nat -> (a < nA)%nat ->
+  Rabs (qf O s a - untab2 Qs s a) <= Rmax btol (gamma * utol) / (1 - gamma).
+Proof.
+  intros Hu0 Hb0 Hv Ht Hu Hk Hb Hfix.
+  apply (bopt_residual_bound O (l_q O) Qs _ (cert_tinv Hv Ht)); auto.
+  - eapply Rle_trans; [exact Hb0|apply Rmax_l].
+  - apply cert_bellman_all; auto.
+Qed.
+
 End Cert.
+
+Lemma bopt_fixb_spec L Qs :
+  @bopt_fixb R NumR nS nA m gamma rmax L Qs = true ->
+  forall s a, (s < nS)%nat -> (a < nA)%nat -> untab2 Qs s a = @bopt R NumR nS nA m gamma rmax L Qs s a.
+Proof using Type. clear Hm Hg0 Hg1.
+  unfold bopt_fixb. rewrite forallbn_spec. intros H s a Hs Ha.
+  specialize (H s Hs). rewrite forallbn_spec in H. apply neqb_R_iff. auto.
+Qed.
 
 End Theory.
 
